@@ -67,3 +67,18 @@ Theorem c04_body_passes_are_the_modelled_ones :
              (PSub, "(?is)<\s*(/\s*)?includeonly\s*(/\s*)?>") ]%string.
 Proof. reflexivity. Qed.
 Print Assumptions c04_body_passes_are_the_modelled_ones.
+
+(* BEGIN PINS (tools/repin.py) *)
+From WTP Require Import Gen.GenPins.
+Module Pins.
+Import String.
+(* The models of this property were transcribed from: core.py:Wtp.expand, core.py:Wtp._finalize_expand, parserfns.py:if_fn, parserfns.py:ifeq_fn, parserfns.py:switch_fn.
+   Gen/GenPins.v holds the digests of these functions in the current source (translate/pins.py: syntax tree without
+   docstrings, comments and layout).  A different digest means that the model is no longer known to describe the
+   code; the check then reports the broken tie and looks for a failing input. *)
+Theorem c04_models_describe_the_current_source :
+  (pin_expand, pin_finalize_expand, pin_if_fn, pin_ifeq_fn, pin_switch_fn) = ("ef1e86598ed090ea", "6e6193b54ac95d13", "fa2797b21d9a63fb", "e1aa7edc9b6102c6", "70a23bf19ce6b825")%string.
+Proof. reflexivity. Qed.
+Print Assumptions c04_models_describe_the_current_source.
+End Pins.
+(* END PINS *)
